@@ -386,7 +386,9 @@ impl ASN1Type {
                         .iter()
                         .any(|m| m.ty.contains_components_of_notation())
             }
-            ASN1Type::SequenceOf(so) => so.element_type.contains_components_of_notation(),
+            ASN1Type::SequenceOf(so) | ASN1Type::SetOf(so) => {
+                so.element_type.contains_components_of_notation()
+            }
             _ => false,
         }
     }
@@ -444,7 +446,8 @@ impl ASN1Type {
                         visiting.push(comp_link.clone());
                         linked_ty.link_components_of(tlds, visiting);
                         visiting.pop();
-                        if let ASN1Type::Sequence(linked_seq) = &linked_ty {
+                        // X.680 25.5 / 27.1: a SEQUENCE includes a SEQUENCE, a SET includes a SET
+                        if let ASN1Type::Sequence(linked_seq) | ASN1Type::Set(linked_seq) = &linked_ty {
                             linked_seq
                                 .members
                                 .iter()
@@ -463,7 +466,9 @@ impl ASN1Type {
                 }
                 member_linking
             }
-            ASN1Type::SequenceOf(so) => so.element_type.link_components_of(tlds, visiting),
+            ASN1Type::SequenceOf(so) | ASN1Type::SetOf(so) => {
+                so.element_type.link_components_of(tlds, visiting)
+            }
             _ => false,
         }
     }
